@@ -258,7 +258,7 @@ def c12(tier, seed, replay=None):
             # stratify by (tree kind, first step kind, outmode)
             strata = {}
             for c in cs:
-                k = (c["tree"]["k"], tuple(st["s"] for t in c["prog"] for st in t["acc"]), c["outmode"], len(c["prog"]))
+                k = (c["tree"]["k"], tuple(st["s"] for t in c["prog"] for st in t["acc"]), c["outmode"], len(c["prog"]), c.get("whole"))
                 strata.setdefault(k, []).append(c)
             cs = []
             keys = sorted(strata, key=str)
